@@ -48,7 +48,12 @@ Open(i) == /\ last \in {"start", "delim", "open", "atom"} /\ steps < MaxSteps /\
 Close == /\ last \in {"atom", "open"} /\ nest # <<>>
          /\ text' = Append(text, nest[Len(nest)]) /\ nest' = SubSeq(nest, 1, Len(nest) - 1) /\ last' = "atom"
          /\ steps' = steps        \* closing is forced, not a free step
-Next == (\E a \in Atoms : AddAtom(a)) \/ (\E d \in Delims : AddDelim(d)) \/ (\E i \in 1..4 : Open(i)) \/ Close
+\* whole groups that follow an atom or another group directly, with delimiters at their own top level: call after
+\* subscript, call of a call result, template arguments before a call - a[0](b,c), f(x = 1)(b,c), T<A>(b,c)
+GroupAtoms == { <<"(", "b", ",", "c", ")">>, <<"[", "0", "]">>, <<"(", "x", " ", "=", " ", "1", ")">>, <<"<", "A", ":", "B", ">">> }
+AddGroup(g) == /\ last = "atom" /\ steps < MaxSteps
+               /\ text' = text \o g /\ last' = "atom" /\ steps' = steps + 1 /\ UNCHANGED nest
+Next == (\E a \in Atoms : AddAtom(a)) \/ (\E d \in Delims : AddDelim(d)) \/ (\E i \in 1..4 : Open(i)) \/ Close \/ (\E g \in GroupAtoms : AddGroup(g))
 Complete == nest = <<>> /\ last = "atom"
 
 -----------------------------------------------------------------------------
